@@ -65,7 +65,8 @@ def ring_hist(rng, nops):
         elif r < 0.57: sc.append("rlink %d %d" % (a, b if rng.random() < 0.9 else -1))
         elif r < 0.70: sc.append("runlink %d %d" % (a, cnt))
         elif r < 0.80: sc.append("rlen %d" % a)
-        elif r < 0.88: sc.append("rdo %d" % a)
+        elif r < 0.85: sc.append("rdo %d" % a)
+        elif r < 0.88: sc.append("rdomut %d %d" % (a, b))   # Do with a callback that links another ring in behind the element being visited
         elif r < 0.94 and nr < 14:
             n = rng.randrange(1, 4); sc.append("rnew %d" % n); nr += n
         else: sc.append(rng.choice(["rfwd %d", "rbwd %d"]) % a)
